@@ -217,6 +217,7 @@ def check_C07(tier):
     t = tier == "thorough"
     engine_run(c, "limit", "LimitMenu", lines="Lines3", maxlines=4 if t else 3, maxfiles=3 if t else 2, tdefs=("plain", "vdef") if t else ("plain",))
     engine_run(c, "limit-join", "LimitJoinMenu", lines="LinesJ", maxlines=3, maxfiles=2, tdefs=("plain",))
+    laws_trace(c, 2 if t else 1, 300 if t else 100)
     c.rule, c.assumptions, c.exhaustive = ENGINE_RULE, ENGINE_ASSUME, True
     return c.finish()
 
@@ -234,6 +235,7 @@ def check_C11(tier):
     t = tier == "thorough"
     engine_run(c, "incr", "CoreMenu", lines="LinesAgg", maxlines=5 if t else 4, maxfiles=1, modes=("incr",), tdefs=("plain", "knn"))
     engine_run(c, "incr-agg", "AggMenu", lines="LinesAgg", maxlines=3, maxfiles=1, modes=("incr",), tdefs=("plain",))
+    laws_trace(c, 2 if t else 1, 300 if t else 100)
     c.rule, c.assumptions, c.exhaustive = ENGINE_RULE, ENGINE_ASSUME, True
     return c.finish()
 
@@ -243,6 +245,7 @@ def check_C19(tier):
     t = tier == "thorough"
     engine_run(c, "interrupt", "CoreLimitMenu", lines="Lines3", maxlines=4 if t else 3, maxfiles=2, intrs="AllIntr", tdefs=("plain",))
     engine_run(c, "interrupt-join", "JoinMenu", lines="LinesJ", maxlines=2, maxfiles=1, joinsets="JoinSetsLong", intrs="JoinIntr", tdefs=("plain",))
+    laws_trace(c, 2 if t else 1, 300 if t else 100)
     c.rule, c.assumptions, c.exhaustive = ENGINE_RULE, ENGINE_ASSUME, True
     return c.finish()
 
@@ -252,6 +255,7 @@ def check_C06(tier):
     t = tier == "thorough"
     engine_run(c, "noise", "CoreLimitMenu", lines="LinesNoise", maxlines=4 if t else 3, maxfiles=1, modes=("batch", "incr"))
     engine_run(c, "noise-join", "JoinMenu", lines="LinesNoise", maxlines=2, maxfiles=1, tdefs=("plain", "knn"))
+    laws_trace(c, 2 if t else 1, 300 if t else 100)
     c.rule, c.assumptions, c.exhaustive = ENGINE_RULE, ENGINE_ASSUME, True
     return c.finish()
 
@@ -279,6 +283,7 @@ def check_C12(tier):
     c.add_report(rep, reg("FileExecutor / join loader line reading vs Reader.tla (replay)", "reader"))
     # the same files through the whole engine: statements over inputs split into files (Engine.tla)
     engine_run(c, "files", "CoreLimitMenu", lines="Lines3", maxlines=4 if t else 3, maxfiles=3, tdefs=("plain",))
+    laws_trace(c, 2 if t else 1, 300 if t else 100)
     c.rule = ("TLC enumerates every byte content up to MaxLen over {x, LF, CR, a byte that is not UTF-8, U+00E9} and every cut into 1..MaxFiles files; each case is written to real files "
               "(x also expanded to runs of 8191/8192/8193 bytes around the BufReader capacity for every 50th case) and read by FileExecutor (SELECT x, COUNT(*), total_lines) and by the join loader. "
               "Non-trivial = at least one line; distinct by (files, run length).")
@@ -418,6 +423,7 @@ def check_C20(tier):
         expect_holds(r, "Lexical %s (ideal lexer reads every layout variant as the base token stream)" % name); c.add_tlc(r)
         rep = vh_replay("lexical", r.replay_path, "lexical-" + name)
         c.add_report(rep, reg("parser vs Lexical.tla (layout variants)", "lexical"))
+    laws_trace(c, 2 if t else 1, 300 if t else 100)
     c.rule = ("TLC applies every single edit (case flip of each keyword / function / aggregate / type name, each of 9 separators incl. comments in every gap, leading / trailing separator, "
               "semicolon), every clause permutation and every pair of edits to 12 base statements covering the grammar, checks with an ideal lexer that the text still reads as the same tokens, "
               "and the real parser must return the same statement (Debug form) as for the base layout. Non-trivial = at least one edit; distinct by text.")
@@ -441,4 +447,114 @@ def check_C14(tier):
               "catch_unwind with overflow checks on, checks the error position lies inside the text and calls extract_near. Random Unicode strings come from a seeded driver and are validated as a trace. "
               "Non-trivial = the text is rejected with a located error (or is not a mutation); distinct by text.")
     c.assumptions = ["the model is a generator / classifier here: it fixes the outcome class, not the statement produced", "nesting deeper than 64 is outside the documented bound"]
+    return c.finish()
+
+
+# =====================================================================================  C01 / C02
+def extract_check(pid, tier, sets, what):
+    c = Check(pid, tier, "model_checking")
+    r = tlc("MC_Extract", cfg_text(constants={"Dev": set(), "CaseSets": {q(s) for s in sets}}, invariants=["Independent", "Admission", "Emit"]), "extract-" + pid, workers=W, timeout=1500)
+    expect_holds(r, "Extract rules (%s)" % ",".join(sets)); c.add_tlc(r)
+    rep = vh_replay("extract", r.replay_path, "extract-" + pid, env_extra={"TZ": "UTC"})
+    c.add_report(rep, reg(what, "extract"))
+    # the admission rule and the extracted values as every statement kind sees them (Engine.tla over table variants)
+    engine_run(c, "admission", "CoreMenu", lines="LinesNoise", maxlines=2, maxfiles=1, tdefs=("plain", "knn", "vdef"))
+    c.assumptions = ["the regex crate is trusted for matching itself; the capture groups of every generated line are cross-checked against it directly (a disagreement is a tool error)",
+                     "REAL literals outside plain decimals, a TIMESTAMP whose month group did not take part, duplicate JSON keys and numbers beyond i64 read as REAL are left open (outcome not compared, only totality)",
+                     "semantic comparison under TZ=UTC"]
+    c.exhaustive = True
+    return c
+
+
+def check_C01(tier):
+    c = extract_check("C01", tier, ["types", "rows", "ts", "arrays", "split"], "TableDefinition::extract (regex / split) vs Extract.tla")
+    c.rule = ("TLC enumerates (definition, line) cases: every column type x modifier x group state (pattern no-match, group absent, empty, in-type, padded, other-type literal, i64::MAX, MAX+1, MIN, 25 digits, 2^32+1), "
+              "rows of three columns sharing groups with NOT NULL / DEFAULT in every position, group 0 and out-of-range groups, TIMESTAMP assembly from 2-7 groups with each part absent / valid / zero / past range / "
+              "2^32+1 / negative / non-numeric / month name (all pairs for month x day, leap years, MICROSECONDS), arrays of 2-3 positions x element types, split fields, inline pattern, a second match later in the line. "
+              "Each definition is rendered to CREATE TABLE text (or built through the API when the grammar cannot express it), parsed by the real parser and executed with SELECT *. Non-trivial = the line yields a row.")
+    return c.finish()
+
+
+def check_C02(tier):
+    c = extract_check("C02", tier, ["jsonleaf", "jsonpath"], "TableDefinition::extract (JSON paths) vs Extract.tla")
+    c.rule = ("TLC enumerates JSON-path columns: 18 leaf kinds (ints incl. i64::MAX, 2^63, 2^64, 1.0, 1.5, numeric / other / timestamp strings, bool, null, homogeneous / mixed / nested arrays, object) x 8 declared types "
+              "x plain / CONVERT / DEFAULT / NOT NULL, paths of length 1-3 through objects and arrays over documents with missing and wrong-kind intermediate nodes and duplicate keys, lines that are not JSON "
+              "(empty, text, truncated, trailing garbage, two documents), each with a regex column on the raw line riding along. Non-trivial = the line yields a row.")
+    return c.finish()
+
+
+# =====================================================================================  C15 / laws on corpora
+def laws_trace(c, rounds, per):
+    trace_check(c, "laws", "Trace_Laws", per, "laws", "relational laws on the repository's corpora", rounds=rounds, env={"TZ": "UTC"})
+
+
+def check_C15(tier):
+    c = Check("C15", tier, "model_checking")
+    t = tier == "thorough"
+    engine_run(c, "order", "OrderMenu", lines="LinesAgg", maxlines=4 if t else 3, maxfiles=1, tdefs=("plain",),
+               invs=["TypeOK", "BatchRefinesSem", "PermLaw", "CombineLaw"], props=())
+    laws_trace(c, 3 if t else 1, 400 if t else 150)
+    c.rule = ENGINE_RULE + (" PermLaw quantifies over all permutations of each enumerated input, CombineLaw over all cut points; the real code is run on every ordering (TLC enumerates all sequences) and, on the "
+                            "repository's corpora, on seeded shuffles and cuts whose outputs are related by Trace_Laws.tla.")
+    c.assumptions, c.exhaustive = ENGINE_ASSUME + ["REAL sums are only compared when exactly representable (dyadic)"], True
+    return c.finish()
+
+
+# =====================================================================================  C09 / C18
+def check_C09(tier):
+    c = Check("C09", tier, "exploration")
+    t = tier == "thorough"
+    vlib.build_cli()
+    # operators / functions / subscripts / casts / CASE / IN on boundary values: value, error or (never) a crash
+    engine_run(c, "boundary", "BoundaryMenu", lines="LinesOne", maxlines=1, maxfiles=1, modes=("incr",), tdefs=("plain",),
+               invs=["TypeOK", "IncrSelectRefinesSem"], props=())
+    # aggregates over groups whose argument is NULL everywhere, extremes in running sums, HAVING on empty aggregates
+    engine_run(c, "agg-null", "AggMenu", lines="LinesAgg", maxlines=2, maxfiles=1, tdefs=("plain",), invs=["TypeOK", "BatchRefinesSem"], props=())
+    engine_run(c, "order-extremes", "OrderMenu", lines="LinesAgg", maxlines=2, maxfiles=1, tdefs=("plain",), invs=["TypeOK"], props=())
+    # printing non-finite REALs and 64-bit extremes in all formats
+    r = tlc("MC_Printer", cfg_text(constants={"Dev": set(), "Formats": {q("text"), q("json"), q("csv")}, "ResultMenu": "<-OneCol", "MaxCalls": 1},
+                                   invariants=["EveryRowOnceInOrder", "Emit"]), "printer-c09", workers=W)
+    expect_holds(r, "Printer (C09)"); c.add_tlc(r)
+    c.add_report(vh_replay("printer", r.replay_path, "printer-c09", env_extra={"TZ": "UTC"}), "OutputPrinter vs Printer.tla (replay)")
+    # out-of-range date parts, numeric extremes and malformed JSON in extraction
+    r = tlc("MC_Extract", cfg_text(constants={"Dev": set(), "CaseSets": {q("ts"), q("jsonleaf")}}, invariants=["Emit"]), "extract-c09", workers=W)
+    expect_holds(r, "Extract (C09)"); c.add_tlc(r)
+    c.add_report(vh_replay("extract", r.replay_path, "extract-c09", env_extra={"TZ": "UTC"}), "TableDefinition::extract (regex / split) vs Extract.tla")
+    # arbitrary bytes through the executor in three formats; the CLI in child processes under TZs with DST gaps / overlaps
+    trace_check(c, "total", "Trace_Total", 2500 if t else 600, "total", "byte soups and TZ runs (outcome classes)", rounds=3 if t else 1,
+                env={"VH_CLI": vlib.build_cli()})
+    c.rule = ("Cases come from the bounded models (Engine.tla BoundaryMenu: every arithmetic operator on all pairs of 10 boundary integers and 7 boundary reals, negation, abs, subscripts -2^63..2^63-1, casts of 19/20-digit texts, "
+              "CASE / AND / OR around a failing operand, IN with NULLs; aggregate menus over NULL-only groups and extremes; Printer and Extract menus) where the model predicts value / error / unknown, and from seeded drivers "
+              "(random and mutated byte lines through 16 statements x 3 formats in process; the CLI as a child process under TZ in {UTC, Europe/Stockholm, America/Santiago, Pacific/Apia, Australia/Lord_Howe, America/New_York} with "
+              "timestamps in DST gaps / overlaps and on days without local midnight) whose outcome class must be ok or err. The harness is built with overflow checks on, so a silent wrap is a panic; where the model predicts a value a wrapped "
+              "value is a mismatch. Non-trivial = the execution produced a record or an error; distinct by case.")
+    c.assumptions = ["release-mode wrap-around is detected through the overflow-checked build plus value comparison on the modelled cases", "a hang is detected by the harness watchdog (60 s without progress)"]
+    return c.finish()
+
+
+def check_C18(tier):
+    c = Check("C18", tier, "model_checking")
+    t = tier == "thorough"
+    vlib.build_cli()
+    # the as-built machine is a deterministic function of (definition, statement, input): every state has at most one successor
+    rep = engine_run(c, "determinism", "CoreLimitMenu", lines="Lines4", maxlines=4 if t else 3, maxfiles=2, modes=("batch", "incr"), tdefs=("plain", "vdef"))
+    logp = os.path.join(vlib.BUILD, "tlc", "engine-determinism", "tlc.log")
+    try:
+        m = __import__("re").search(r"average outdegree of the complete state graph is \d+ \(minimum is \d+, the maximum (\d+)", open(logp).read())
+    except OSError:
+        m = None
+    if m is None:
+        raise ToolError("could not read the out-degree statistics of the Engine run")
+    if int(m.group(1)) > 1:
+        raise ToolError("specification error: Engine.tla is not deterministic (max out-degree %s)" % m.group(1))
+    c.extra["engine_max_outdegree"] = int(m.group(1))
+    engine_run(c, "determinism-join", "JoinMenu", lines="LinesJ", maxlines=3, maxfiles=1, tdefs=("plain",))
+    engine_run(c, "determinism-agg", "AggMenu", lines="LinesAgg", maxlines=2, maxfiles=1, tdefs=("plain",))
+    # repeated executions in one process (laws: repeat) and in fresh processes with fresh hash seeds and other tables defined around
+    laws_trace(c, 2 if t else 1, 300 if t else 100)
+    trace_check(c, "process", "Trace_Laws", 60 if t else 15, "process", "fresh-process executions of the CLI (byte-identical output)", rounds=2 if t else 1,
+                env={"VH_CLI": vlib.build_cli()})
+    c.rule = ENGINE_RULE + (" Determinism of the model is checked through TLC's out-degree statistics (every state has at most one successor); every replayed behaviour must equal the model's unique output; "
+                            "the CLI is run 4 times per case in fresh processes (fresh RandomState seeds), with unrelated tables defined before / after the queried one, and the outputs must be identical line by line.")
+    c.assumptions, c.exhaustive = ENGINE_ASSUME + ["now() is excluded"], True
     return c.finish()
